@@ -89,7 +89,7 @@ def rhs_obs(d, Pm):
 
 def gen_cases(rng, tier):
     cases = []
-    nrand = 2500 if tier == 'quick' else 30000
+    nrand = 6000 if tier == 'quick' else 60000
     from .c09 import exhaustive_core
     core = []
     for shape, maxent in ([((3,), 1), ((2, 3), 2)] if tier == 'quick' else [((3,), 2), ((2, 3), 2), ((2, 2, 2), 2), ((2, 0), 1)]):
